@@ -421,24 +421,60 @@ func c20BuildExec(tier string) core.Source {
 	alphabet := []string{"--server", "--daemon", "--sender", "-eMARKER", "--rsh=MARKER", "-e", "--exclude", "-vlogDtpr", ".", "CANARY/dir", "CANARY/newdir", "host:path", "rsync://127.0.0.1:1/m",
 		// daemon-side options a client must not be able to set for its session
 		"--gokr.modulemap=leak=CANARY", "--gokr.config=CANARY/evil.toml"}
-	var lines [][]string
-	var gen func(p []string)
-	gen = func(p []string) {
-		lines = append(lines, append([]string{}, p...))
-		if len(p) == maxLen {
-			return
-		}
-		for _, a := range alphabet {
-			gen(append(p, a))
-		}
+	// command lines are enumerated by index (mixed radix over the alphabet), never materialised:
+	// all lines of length 0..5; thorough adds the lines of length 6 that contain both --server and --daemon
+	A := len(alphabet)
+	var starts []int // starts[k] = index of the first line of length k
+	total := 0
+	pow := 1
+	for k := 0; k <= 5; k++ {
+		starts = append(starts, total)
+		total += pow
+		pow *= A
 	}
-	gen(nil)
-	var d *c20Daemon
+	all6 := pow // A^6
+	lineAt := func(idx int) []string {
+		k := 5
+		for k > 0 && idx < starts[k] {
+			k--
+		}
+		r := idx - starts[k]
+		if idx >= total {
+			k, r = 6, idx-total
+		}
+		w := make([]string, k)
+		for j := k - 1; j >= 0; j-- {
+			w[j] = alphabet[r%A]
+			r /= A
+		}
+		if k == 6 && !(has2(w, "--server") && has2(w, "--daemon")) {
+			return nil
+		}
+		return w
+	}
 	const batch = 16
-	n := (len(lines) + batch - 1) / batch
+	const batch6 = 8192 // raw indices of length 6 per case (about 10% of them pass the filter)
+	n := (total + batch - 1) / batch
+	n5 := n
+	if maxLen == 6 {
+		n += (all6 + batch6 - 1) / batch6
+	}
+	var d *c20Daemon
 	return core.FuncSource{N: n, F: func(i int) core.Result {
-		lo, hi := i*batch, min((i+1)*batch, len(lines))
-		res := core.Result{Case: fmt.Sprintf("exec command lines %d..%d, e.g. rsync %s", lo, hi-1, strings.Join(lines[lo], " "))}
+		lo, hi := i*batch, min((i+1)*batch, total)
+		if i >= n5 {
+			lo, hi = total+(i-n5)*batch6, min(total+(i-n5+1)*batch6, total+all6)
+		}
+		var lines [][]string
+		for idx := lo; idx < hi; idx++ {
+			if w := lineAt(idx); w != nil || idx == 0 {
+				lines = append(lines, w)
+			}
+		}
+		res := core.Result{Case: fmt.Sprintf("exec command lines with indices %d..%d (%d lines)", lo, hi-1, len(lines))}
+		if len(lines) > 0 {
+			res.Case += ", e.g. rsync " + strings.Join(lines[0], " ")
+		}
 		if d == nil {
 			var err error
 			if d, err = c20StartDaemon(); err != nil {
@@ -447,7 +483,7 @@ func c20BuildExec(tier string) core.Source {
 			}
 		}
 		daemonSessions := 0
-		for _, words := range lines[lo:hi] {
+		for _, words := range lines {
 			var w []string
 			for _, x := range words {
 				x = strings.ReplaceAll(x, "MARKER", d.script)
@@ -621,7 +657,7 @@ func init() {
 	core.Register(&core.Prop{
 		ID:    "C20",
 		Level: "model_checking",
-		Rule: "auth: every subset of 4 listable keys (ed25519 x2, ecdsa-p256, rsa-2048) x authorized_keys layouts {plain, comments/blank lines/options prefix, CRLF} (incl. the empty file) x every client key (the 4, an unlisted one, none) and every ordered pair (key offered without valid proof of possession, then another key with a valid signature) on one connection, plus the anonymous listener, each a real SSH handshake against anonssh.Serve; exec: the real daemon entry point (maincmd.Main --daemon with an authorized-SSH listener, i.e. the real session dispatch) receives every exec command line 'rsync w1..wk', k<=5 (thorough k<=6), over {--server,--daemon,--sender,-e<marker>,--rsh=<marker>,-e <next word>,--exclude <next word>,-vlogDtpr,.,<canary>/dir,<canary>/newdir,host:path,rsync://…,--gokr.modulemap=leak=<canary>,--gokr.config=<canary>/evil.toml}; requests: shell, subsystem, pty-req, env, foreign channel types. " +
+		Rule: "auth: every subset of 4 listable keys (ed25519 x2, ecdsa-p256, rsa-2048) x authorized_keys layouts {plain, comments/blank lines/options prefix, CRLF} (incl. the empty file) x every client key (the 4, an unlisted one, none) and every ordered pair (key offered without valid proof of possession, then another key with a valid signature) on one connection, plus the anonymous listener, each a real SSH handshake against anonssh.Serve; exec: the real daemon entry point (maincmd.Main --daemon with an authorized-SSH listener, i.e. the real session dispatch) receives every exec command line 'rsync w1..wk', k<=5 (thorough: length 6 for the lines containing both --server and --daemon) over {--server,--daemon,--sender,-e<marker>,--rsh=<marker>,-e <next word>,--exclude <next word>,-vlogDtpr,.,<canary>/dir,<canary>/newdir,host:path,rsync://…,--gokr.modulemap=leak=<canary>,--gokr.config=<canary>/evil.toml}; requests: shell, subsystem, pty-req, env, foreign channel types. " +
 			"oracle: handshake succeeds iff the key is listed (always on the anonymous listener); a session produces the daemon greeting iff the command line selects --server --daemon, and such a session lists exactly the configured module and serves no other module name; every other command line yields no stdout bytes, a non-zero exit status, an untouched canary directory and no execution of the marker script. states/transitions = handshakes / sessions",
 		Assum: []string{"key material is generated per worker and is not an explored dimension", "landlock is neutralised in the worker (it would narrow what a session can reach; the property is about the listener's dispatch)", "the anonymous listener's dispatch closure is textually the same as the authorised one and needs Linux namespaces to start, so the authorised one is driven"},
 		Parts: func(tier string) []core.Part {
